@@ -375,6 +375,9 @@ class ProgGen(object):
         r = self.r
         allv = scope.lookup_all()
         asg = [(x, vt) for x, (vt, a) in allv.items() if a and (not self.pure_mode or x in self.own)]
+        if self.top_loop and not self.in_fun:
+            # known finding (C02/C03/C12): at -Q2+ the emerge pass loses record field stores in file-level loops
+            asg = [(x, vt) for (x, vt) in asg if not (isinstance(vt, list) and vt[0] == "rec")]
         choices = ["print"] * 3 if not self.pure_mode else []
         if asg:
             choices += ["asg"] * 4
@@ -405,7 +408,7 @@ class ProgGen(object):
             if isinstance(vt, list) and not self.pure_mode:
                 if vt[0] == "arr" and x in self.arrlen:
                     choices.append(("aset", x))
-                if vt[0] == "rec":
+                if vt[0] == "rec" and not (self.top_loop and not self.in_fun):
                     choices.append(("rset", x))
         if self.funs and d > 0 and not self.pure_mode:
             choices.append("callstmt")
